@@ -89,6 +89,17 @@ static void role_payload(const Case &c, std::vector<Bytes> &recent) {
         }
     }
     vp::cls("concatenation-from-polled-source");
+    // one context object for both directions: whatever an earlier decode left in it (stopped in the middle of a frame, out of sync after an
+    // invalid escape, or cleanly at a frame boundary), the next encode produces the same octets as a fresh context
+    for (int pre = 0; pre < 4; pre++) {
+        static const Bytes PRE[4] = {{END, 'a', 'b'}, {END, 'a', ESC, 'x', 'y'}, {END, 'a', END}, {'q', 'r'}};
+        RFC1055Context ctx; ctx_init(ctx, c.sof);
+        { ep::ScriptSource dsrc(c.kinds & 1, PRE[pre]); ep::ScriptSink dsnk(c.kinds & 2); (void)rfc1055_decode(&ctx, &dsrc.src, &dsnk.snk); }
+        ep::ScriptSource esrc(c.kinds & 1, p); ep::ScriptSink esnk(c.kinds & 2);
+        int er = rfc1055_encode(&ctx, &esrc.src, &esnk.snk);
+        if (er < 0 || esnk.got != enc) { F(c, "encode-after-decode-on-same-context", vp::fmt("a decode that ended %s ran on the context before: encode returned %d and produced %s instead of %s", pre == 0 ? "inside a frame" : pre == 1 ? "with an invalid escape" : pre == 2 ? "at a frame boundary" : "out of sync", er, vp::hex(esnk.got).c_str(), vp::hex(enc).c_str())); return; }
+    }
+    vp::cls("encode-on-a-context-used-for-decoding");
 }
 
 // ---- (b) raw decoder input
